@@ -294,6 +294,7 @@ def main(tier):
                     continue
                 chk.violation('damaged-exposes-garbage|' + m['label'].split('@')[0], 'damaged archive (%s): entry %r is exposed with %d bytes that are not its stored content (%d bytes)' % (m['label'], name, rd['len'], len(data)), dict(rep, request=q))
                 break
+    run_memcheck_pass(chk, items, meta_of, tier)
     run_cli_cases(chk, base, tier)
     shutil.rmtree(base, ignore_errors=True)
     return chk.finish(
@@ -303,6 +304,41 @@ def main(tier):
         min_evaluations=100,
         assumptions=['damage is confined to the header zone, length fields and truncation: the format has no per-entry checksum, so flipped data bytes are not detectable by any reader',
                      'allocation bound: largest single request <= 64 KiB + 8 x archive size'])
+
+
+def run_memcheck_pass(chk, items, meta_of, tier):
+    """the same archives through the reader in an uninstrumented build under valgrind memcheck: values read from short reads, stack buffers
+    that were only partly filled and heap blocks that were never written are invisible to ASan (the bytes are addressable) but decide
+    what the reader believes about a damaged archive"""
+    idx = list(range(len(items)))
+    if tier == 'thorough':
+        # every intact archive and a spread of the damaged ones
+        rng = core.rng('c17-memcheck')
+        dam = [i for i in idx if meta_of[i]['kind'] != 'intact']
+        rng.shuffle(dam)
+        idx = [i for i in idx if meta_of[i]['kind'] == 'intact'][:300] + dam[:6000]
+    reports, deaths, n = core.run_memcheck([items[i] for i in idx], batch=8, item_cpu_ms=1500)
+    chk.count('memcheck_items', n)
+    chk.count('memcheck_reports', len(reports))
+    for j, rep in reports:
+        m = meta_of[idx[j]]
+        if not rep['file']:
+            # a report whose stack never enters the repository sources: the harness or the C library, not the code under test
+            chk.count('memcheck_reports_outside_repo')
+            chk.notes.append("memcheck report outside the repository sources: %s" % rep["head"][:300].replace("\n", " / "))
+            continue
+        key = rep['sig'] + '|' + m['kind']
+        if chk.known_by_sig(key):
+            continue
+        chk.violation(key, 'valgrind memcheck, %s archive (%s, via %s): %s in %s (%s)' % (m['kind'], m['label'], m['via'], rep['kind'], rep['fn'], rep['file']),
+                      {'label': m['label'], 'via': m['via'], 'archive_hex': open(m['path'], 'rb').read()[:4096].hex() if os.path.exists(m['path']) else None, 'memcheck': rep['head']})
+    for j, d in deaths:
+        m = meta_of[idx[j]]
+        if d['kind'] in ('wall-timeout', 'cpu-timeout', 'inconclusive'):
+            # the ASan pass judges hangs with a budget that means something; under valgrind a timeout is inconclusive
+            chk.inconclusive += 1
+            continue
+        chk.death_is_violation(d, 'under memcheck: %s archive (%s, via %s)' % (m['kind'], m['label'], m['via']), {'label': m['label'], 'via': m['via']}, sig_prefix='memcheck-pbo|' + m['kind'], sig_suffix=m['kind'])
 
 
 def run_cli_cases(chk, base, tier):
